@@ -145,12 +145,31 @@ def op_add_excluded(src, n):
     w(src, 'lib/old/o%d.c' % n, 'int o;\n')
 
 
+def op_add_empty_dir(src, n):
+    """a new directory below a searched one that (so far) holds nothing that matches"""
+    os.makedirs(os.path.join(src, 'lib', 'fresh%d' % n), exist_ok=True)
+    os.makedirs(os.path.join(src, 'src', 'fresh%d' % n), exist_ok=True)
+
+
+def op_fill_new_dirs(src, n):
+    """a matching file inside each directory created by add-empty-dir"""
+    done = False
+    for top in ('lib', 'src'):
+        for d in sorted(os.listdir(os.path.join(src, top))):
+            if d.startswith('fresh') and os.path.isdir(os.path.join(src, top, d)):
+                w(src, '%s/%s/filled%d.c' % (top, d, n), 'int f%d;\n' % n)
+                w(src, '%s/%s/filled%d.h' % (top, d, n), '#define F\n')
+                done = True
+    return None if done else 'noop'
+
+
 OPS = [('add-matching', op_add_match), ('add-nonmatching', op_add_nomatch), ('add-extra', op_add_extra),
        ('remove-matching', op_remove_match), ('rename-matching', op_rename_match),
        ('add-dir', op_add_dir), ('add-platform-dirs', op_add_dir_src), ('remove-dir', op_remove_dir),
        ('edit-build.bfg', op_edit_script), ('touch-build.bfg', op_touch_script),
        ('edit-options/submodule', op_edit_aux), ('add-excluded', op_add_excluded),
-       ('drop-find_files', op_drop_find), ('edit-new-submodule', op_edit_new_submodule)]
+       ('drop-find_files', op_drop_find), ('edit-new-submodule', op_edit_new_submodule),
+       ('add-empty-dir', op_add_empty_dir), ('fill-new-dirs', op_fill_new_dirs)]
 OPD = dict(OPS)
 
 
